@@ -29,6 +29,7 @@ func init() {
 		},
 		TrustedBase: []string{"capability worklist checker/core/cap.go over VTA∪CHA call resolution", "sink/pure classification table in checker/props/c18.go"},
 		Rules: []core.Rule{
+			{ID: "R18.8", Template: "T-CONSULT", Text: "fd_prestat_* answer only for pre-opened directories: stdio is not reported under the default configuration (genuine defect found and fixed)", Min: 1},
 			{ID: "R18.1", Template: "T-CAP", Text: "no ambient-authority sink reachable from the WASI functions except through injection points; every external callee classified", Min: 3},
 			{ID: "R18.2", Template: "T-CAP", Text: "default bindings of the injection points (nil option) reach no sink", Min: 6},
 			{ID: "R18.3", Template: "T-OWN", Text: "NewModuleConfig sets no capability field; toSysContext passes the capability fields unmodified", Min: 2},
@@ -39,6 +40,7 @@ func init() {
 		},
 		Run: runC18,
 		Controls: []core.Control{
+			{Name: "prestat-reports-stdio", File: "imports/wasi_snapshot_preview1/fs.go", Old: "\t} else if isDir, errno := f.File.IsDir(); errno != 0 {\n\t\treturn \"\", errno\n\t} else if !isDir {", New: "\t} else if isDir, errno := f.File.IsDir(); errno != 0 || !isDir {\n\t\treturn \"\", errno\n\t} else if !isDir {", Rule: "R18.8", Substr: "preopenPath"},
 			{Name: "wasi-called-with-another-guests-module", File: "internal/engine/interpreter/interpreter.go", Old: "\t\t\t\t// Revert to a normal call.\n\t\t\t\tce.callFunction(ctx, f.moduleInstance, tf)", New: "\t\t\t\t// Revert to a normal call.\n\t\t\t\tce.callFunction(ctx, m, tf)", Rule: "R18.7", Substr: "calling module"},
 			{Name: "sock-config-written-into-callers-config", File: "runtime.go", Old: "\t\t\tconfig = config.clone() // the caller's configuration must stay unchanged\n", New: "", Rule: "R18.6", Substr: "InstantiateModule"},
 			{Name: "nanosleep-defaults-to-real", File: "internal/sys/sys.go", Old: "\t\tsysCtx.nanosleep = platform.FakeNanosleep", New: "\t\tsysCtx.nanosleep = platform.Nanosleep", Rule: "R18.2", Substr: "nanosleep"},
@@ -234,6 +236,7 @@ func injectionCut(c *core.Ctx) func(site ssa.CallInstruction, in *ssa.Function) 
 }
 
 func runC18(c *core.Ctx) {
+	checkPrestatOnlyDirectories(c)
 	c.SSA()
 	checkModuleConfigNotWritten(c)
 	checkInterpCallerInstance(c, "R18.7")
